@@ -239,6 +239,8 @@ def lb_keogh(s1, s2, **kwargs):
     """Lowerbound LB_KEOGH"""
     s = DTWSettings(**kwargs)
     if s.use_c:
+        s1 = util_numpy.verify_np_array(s1)
+        s2 = util_numpy.verify_np_array(s2)
         return dtw_cc.lb_keogh(s1, s2, window=s.window, max_dist=s.max_dist,
                                max_step=s.max_step, inner_dist=s.inner_dist)
     if s.window is None:
